@@ -235,6 +235,17 @@ def check_blocks(out, cls, p, n, runners, kmax=400):
             out.violation(f"{cls} two-sided: rise after {n} flagged with delay {d1}, drop with delay {d2} (one of them never within {kmax})", rep)
         elif cls == "HDDMA" and d1 != d2:
             out.violation(f"HDDMA two-sided: rise delay {d1} differs from drop delay {d2} after {n} stable values", rep)
+    # HDDM-A: the exact delay proved in Lean (C04b.rise_delay_gen / drop_delay_gen): first j >= 1 with L (n + j) <= 2 n j, never when 2 n <= L
+    if cls == "HDDMA" and s1 == "ok" and s2 == "ok":
+        fp = dets.full_params(cls, p)
+        L = math.log(1 / fp["alpha_d"])
+        if 2 * n <= L * (1 + 1e-9):
+            want = None if 2 * n < L * (1 - 1e-9) else "tie"
+        else:
+            x = L * n / (2 * n - L)
+            want = "tie" if abs(x - round(x)) < 1e-7 else max(1, math.ceil(x), fp["min_num_instances"] - n)
+        if want != "tie" and (want is None or want <= kmax) and (d1 != want or d2 != want):
+            out.violation(f"HDDMA two-sided: after {n} stable values the rise is flagged with delay {d1} and the drop with delay {d2}; the Hoeffding formula gives {want}", rep)
     out.case({"class": cls, "blocks": n, "params": p}, nontrivial=(d1 is not None))
 
 
@@ -252,10 +263,10 @@ def run(out: Outcome) -> None:
             xs = gen.unit_stream(rng, rng.randint(10, 500 if thorough else 200))
             check_spec(out, cls, p, xs, runners)
             check_extends(out, cls, gen.rand_params(rng, cls), gen.unit_stream(rng, rng.randint(10, 300)), runners)
-        for _ in range(12 if thorough else 4):
+        for _ in range(30 if thorough else 10):
             p = gen.rand_params(rng, cls)
             p["min_num_instances"] = rng.choice([1, 5, 30])
-            check_blocks(out, cls, p, rng.choice([p["min_num_instances"], 30, 57, 100]), runners)
+            check_blocks(out, cls, p, rng.choice([p["min_num_instances"], 1, 2, 3, 30, 57, 100, p["min_num_instances"] // 2 + 1]), runners)
     for _ in range(2 * n_rand):
         check_flip(out, gen.rand_params(rng, "HDDMA"), gen.unit_stream(rng, rng.randint(10, 300)), runners)
     if "KF-C04-1" in out.findings:
